@@ -119,8 +119,43 @@ def half_cell_input(ghex, a, b):
     return False
 
 
+def sub_cell_feature(ghex, a, b):
+    """some ring or line of an input spans fewer than 2 grid cells in x or in y: it collapses (or nearly does) under rounding"""
+    g = abs(_dec(ghex)) if ghex else 0.0
+    if not g > 0:
+        return False
+    found = [False]
+
+    def seq(sq):
+        pts = sq[1]
+        if len(pts) < 2:
+            return
+        xs = [_dec(p[0]) for p in pts]
+        ys = [_dec(p[1]) for p in pts]
+        if (max(xs) - min(xs)) < 2 * g or (max(ys) - min(ys)) < 2 * g:
+            found[0] = True
+
+    def walk(e):
+        if e[0] in gtok.COLL:
+            for x in e[1]:
+                walk(x)
+        elif e[0] in ("L", "R"):
+            seq(e[1])
+        elif e[0] == "Y":
+            for sq in e[1]:
+                seq(sq)
+    for line in (a, b):
+        if line and line != "-":
+            try:
+                walk(gtok.parse(line)[1])
+            except Exception:
+                pass
+    return found[0]
+
+
 def signature(op, flags, a, b, verdict, ghex=None):
     """Structural key of a failing case, used to match KNOWN_FINDINGS.json.
+    subCellFeature: (class exception, no rounding tie) an input ring or line spans fewer than two grid cells in x or y
     halfCellInput : (failure classes of the operations) an input ordinate sits on a rounding tie k + 1/2 of the grid
     class : which clause of the contract fails (exception | offgrid | invalid-result | ring-check | far-sample |
             stray-vertex | pointwise | line-reduce | crash)
@@ -134,6 +169,10 @@ def signature(op, flags, a, b, verdict, ghex=None):
         sig["halfCellInput"] = half_cell_input(ghex, a, b) if ghex else False
         if sig["halfCellInput"]:
             del sig["op"]            # one family whatever the operation: snap rounding of inputs sitting on rounding ties
+            return sig
+        if cls == "exception" and ghex and sub_cell_feature(ghex, a, b):
+            del sig["op"]            # one family whatever the operation: a ring / line thinner than two grid cells
+            sig["subCellFeature"] = True
             return sig
     if op == "UU":
         k = leaf_kinds(a)
